@@ -110,4 +110,13 @@ Dy(k) == IF k >= 0 THEN 1024 * Pow(2, k) ELSE 1024 \div Pow(2, -k)
 TicksPerSecond1024(k) == Dy(k)
 SecondsPerTick1024(k) == Dy(-k)
 TicksPerMinute1024(k) == 60 * Dy(k)
+\* a speed of 2^k ticks per second expressed in unit u (0 seconds per tick, 1 ticks per second, 2 ticks per minute), * 1024
+InUnit1024(u, k) == CASE u = 0 -> Dy(-k) [] u = 1 -> Dy(k) [] OTHER -> 60 * Dy(k)
+\* Tweenable for ClockSpeed (clock_speed.rs): the start is converted to the unit of the target and the tween is linear
+\* in that unit; q quarters of the way from 2^k1 to 2^k2 ticks per second, result in unit u2, * 1024
+SpeedInterp1024(u2, k1, k2, q) == (InUnit1024(u2, k1) * (4 - q) + InUnit1024(u2, k2) * q) \div 4
+\* ... and that result in ticks per second * 1024 (rounded down)
+SpeedInterpTps1024(u2, k1, k2, q) ==
+  LET r == SpeedInterp1024(u2, k1, k2, q)
+  IN CASE u2 = 0 -> (1024 * 1024) \div r [] u2 = 1 -> r [] OTHER -> r \div 60
 =============================================================================
